@@ -223,6 +223,30 @@ class Ref:
         bound += 2 * tol * sumS_over_d2
         return bound
 
+    def G_tau_drop_bound(self, i, j, tol=1e-8):
+        """uniform-in-tau bound of the dropped part of G_ij(tau): every dropped residue contributes at most |R|"""
+        Ci = np.abs(self.C(i)) ** 2
+        Cj = np.abs(self.C(j)) ** 2
+        ng = len(self.groups)
+        bound = 0.0
+        for a in range(ng):
+            A = self.groups[a]
+            for b_ in range(ng):
+                B = self.groups[b_]
+                Fi = math.sqrt(Ci[np.ix_(A, B)].sum())
+                Fj = math.sqrt(Cj[np.ix_(A, B)].sum())
+                if Fi == 0.0 or Fj == 0.0:
+                    continue
+                S = (self.w[A[0]] + self.w[B[0]]) * Fi * Fj
+                cnt = len(A) * len(B)
+                if cnt == 1:
+                    bound += (S if S < tol * (1 + 1e-6) else 0.0)
+                else:
+                    bound += min(cnt * tol, S)
+                if S > 0:
+                    bound += tol          # cancellation after merging with another pair at the same pole
+        return bound
+
     # --- bosonic susceptibility <T A(tau) B(0)> ----------------------------------------------------
     def chiAB(self, A, B, n):
         """int_0^beta <T A(tau)B(0)> exp(i W_n tau); A,B eigenbasis matrices"""
@@ -283,6 +307,31 @@ class Ref:
                 s2 += S / (d * d)
         return bound + 2 * tol * s2
 
+    def chi_tau_drop_bound(self, A, B, tol=1e-8):
+        """bound (uniform in tau) of what is dropped from <A(tau)B(0)>: a dropped residue R at pole P contributes at
+        most |R|/(1-exp(-beta|P|))"""
+        A2 = np.abs(A) ** 2
+        B2 = np.abs(B) ** 2
+        ng = len(self.groups)
+        bound = 0.0
+        for a in range(ng):
+            GA = self.groups[a]
+            for b_ in range(ng):
+                if a == b_:
+                    continue
+                GB = self.groups[b_]
+                Fa = math.sqrt(A2[np.ix_(GA, GB)].sum())
+                Fb = math.sqrt(B2[np.ix_(GB, GA)].sum())
+                if Fa == 0 or Fb == 0:
+                    continue
+                S = abs(self.w[GA[0]] - self.w[GB[0]]) * Fa * Fb
+                P = abs(self.E[GB].mean() - self.E[GA].mean())
+                f = 1.0 / -math.expm1(-self.beta * P)
+                cnt = len(GA) * len(GB)
+                dropped = min(cnt * tol, S) if (cnt > 1 or S < tol * (1 + 1e-6)) else 0.0
+                bound += (dropped + (tol if S > 0 else 0.0)) * f
+        return bound
+
     # --- two-particle GF ------------------------------------------------------------------------
     def chi4(self, i, j, k, l, n1, n2, n3, return_scale=False):
         """chi_ijkl(w_n1, w_n2; w_n3) by direct evaluation of the time-ordered triple integral:
@@ -295,6 +344,7 @@ class Ref:
         O4 = self.Cd(l)
         total = 0.0 + 0.0j
         scale = 0.0
+        self.last_chain_abs = 0.0          # sum over all chains and orderings of |matrix-element product|
         D = self.D
         for perm in itertools.permutations(range(3)):
             sign = perm_sign(perm)
@@ -332,6 +382,7 @@ class Ref:
             val = _dd_exp4(beta, E[s1], E[s2], E[s3], E[s4], w[s1], w[s2], w[s3], w[s4], k1, k2, k3)
             total += sign * np.sum(M * val)
             scale += float(np.sum(np.abs(M) * (w[s1] + w[s2] + w[s3] + w[s4])))
+            self.last_chain_abs += float(np.sum(np.abs(M)))
         if return_scale:
             return complex(total) * beta ** 3, scale
         return complex(total) * beta ** 3
